@@ -135,4 +135,41 @@ def Ast.postorder : Ast → List Out
   | .bin op l r => l.postorder ++ r.postorder ++ [.op op]
   | .paren e => e.postorder
 
+
+/-! ### which parenthesisations denote the tree (a decidable sufficient condition) -/
+
+def precOf (t : Tbl) (o : String) : Nat := (t.prec o).getD 0
+
+/-- the operators still pending on the stack when the tokens of `e` have been read (bottom
+first): the right spine of the unparenthesised part. -/
+def Ast.spine : Ast → List String
+  | .num _ => []
+  | .paren _ => []
+  | .un op e => unaryName op :: e.spine
+  | .bin op _ r => op :: r.spine
+
+/-- may stand directly after a prefix operator -/
+def Ast.prefixOperand : Ast → Bool
+  | .bin .. => false
+  | _ => true
+
+/-- a right operand that is itself a binary operation must bind tighter than `p`. -/
+def Ast.headOk (t : Tbl) (p : Nat) : Ast → Bool
+  | .bin q _ _ => p < precOf t q
+  | _ => true
+
+/-- parentheses are where the grammar needs them (there may be more): the left operand of an
+operator of precedence `p` has no pending operator weaker than `p` (equal is fine: left to right),
+the right operand, if a bare binary operation, binds strictly tighter; the operand of a prefix
+operator is a number, a parenthesis or another prefix operation. -/
+def Ast.ok (t : Tbl) : Ast → Bool
+  | .num _ => true
+  | .paren e => e.ok t
+  | .un op e =>
+    (t.prec op).isSome && (t.prec (unaryName op)).isSome && t.unary (unaryName op) &&
+      e.ok t && e.prefixOperand
+  | .bin op l r =>
+    (t.prec op).isSome && !t.unary op && l.ok t && r.ok t &&
+      l.spine.all (fun o => precOf t op ≤ precOf t o) && r.headOk t (precOf t op)
+
 end MwVerif.Expr
